@@ -48,7 +48,7 @@ def run(rep, prog, tier):
                 continue
             for s in outs:
                 big = None
-                for t, v in s.facts:
+                for t, v, _sk in s.facts:
                     if 'self.count' in t:
                         tt = strip(t)
                         okc = tt in (strip('((String2KeyType.Iterated == String2KeyType.Iterated) and (self.count > len(%s)))' % UNIT),
